@@ -222,7 +222,7 @@ Qed.
 
 (* composed with the agreement theorem: after a well-formed UPDATE the table holds the reference's routes *)
 Theorem ribin_reference opq s other b u :
-  plain_sess s -> wfb b ->
+  ip_sess s -> wfb b ->
   (forall wb ab nb l, sections b = Some (wb, ab, nb) -> tlvs (length ab) ab = Some l -> forallb modelled l = true) ->
   ref_update_gen unpack_nlri other (rs_of s) b = Some (RUpdate u) ->
   exists u', dec_update opq s b = Decoded u' /\ map entry_of (u_attrs u') = ru_attrs u
@@ -336,7 +336,7 @@ Proof.
     injection Ht as <-. constructor; [exact Hcb|]. apply (IH _ _ (wfb_skipn _ _ Hwb) Et).
 Qed.
 
-Lemma discard_block opq s other : plain_sess s -> forall fuel d l m,
+Lemma discard_block opq s other : ip_sess s -> forall fuel d l m,
   wfb d -> tlvs fuel d = Some l ->
   forallb (acceptable other s) l = true -> nodup_codes l = true ->
   (forall r, In r l -> ahas m (r_code r) = false) ->
@@ -409,7 +409,7 @@ Qed.
    the INTERNAL_DISCARD mark left aside, is entry by entry the reference's for the block WITHOUT those attributes:
    exactly they are missing, every other attribute is reported as received. *)
 Theorem discard_class opq s other ab l :
-  plain_sess s -> wfb ab -> tlvs (length ab) ab = Some l ->
+  ip_sess s -> wfb ab -> tlvs (length ab) ab = Some l ->
   forallb (acceptable other s) l = true -> nodup_codes l = true ->
   parse_refuses (parse (length ab) true opq s ab [])
   \/ exists m, parse (length ab) true opq s ab [] = POk m
